@@ -111,6 +111,9 @@ func genTypes(r *core.Rand) ([]cty.Type, string) {
 	n := 1 + r.Weighted([]int{2, 8, 6, 4})
 	ts := make([]cty.Type, n)
 	strat := ""
+	if r.Chance(1, 5) {
+		return genVariants(r, n), "variants"
+	}
 	switch k := r.Intn(100); {
 	case k < 30:
 		strat = "seq-family"
@@ -227,12 +230,13 @@ func typesGo(ts []cty.Type) string {
 // to: known, null, unknown (plain and refined), and mixed ones with unknown and
 // null members at every depth. Every value conforms to ty.
 func valuesFor(r *core.Rand, ty cty.Type) []cty.Value {
-	vs := make([]cty.Value, 0, 6)
+	vs := make([]cty.Value, 0, 7)
 	vs = append(vs, gen.Value(r, ty, gen.ValueOpts{MaxLen: 3, SmallNums: r.Bool()}))
 	vs = append(vs, gen.Value(r, ty, gen.ValueOpts{MaxLen: 2, NullPct: 20, NoTopNull: true}))
 	vs = append(vs, gen.Value(r, ty, gen.ValueOpts{MaxLen: 3, UnknownPct: 20, NullPct: 10, Refined: true, NoTopNull: true, NoTopUnk: true, SmallNums: true}))
 	vs = append(vs, gen.Value(r, ty, gen.ValueOpts{MaxLen: 3, UnknownPct: 35, Refined: r.Bool(), NoTopNull: true, NoTopUnk: true}))
 	vs = append(vs, cty.NullVal(ty))
 	vs = append(vs, gen.Unknown(r, ty, true))
+	vs = append(vs, gen.MarkSome(r, gen.Value(r, ty, gen.ValueOpts{MaxLen: 2, UnknownPct: 10, NullPct: 10, NoTopNull: true, NoTopUnk: true, SmallNums: true}), 60, 25))
 	return vs
 }
